@@ -6,7 +6,7 @@ use crate::core::*;
 use crate::gen::*;
 use crate::oracle::*;
 use proptest::prelude::*;
-use similar::algorithms::{self, Compact, DiffHook, NoFinishHook, Replace};
+use similar::algorithms::{Compact, DiffHook, NoFinishHook, Replace};
 
 pub struct C08;
 
@@ -19,8 +19,33 @@ struct Run {
     calls_after_error: usize,
 }
 
+/// deadline variant of a case: 0 none, 1..3 = virtual clock expiring at probe 0 / 1 / 3
+fn dl_of(c: &SeqCase) -> u8 {
+    (c.mode / (2 * NSTACKS)) % 4
+}
+
+mod algorithms {
+    //! the same entry point as `similar::algorithms::diff`, with the case's deadline variant
+    use super::*;
+    pub fn diff<D: DiffHook>(alg: similar::Algorithm, d: &mut D, old: &[u32], or: std::ops::Range<usize>, new: &[u32], nr: std::ops::Range<usize>) -> Result<(), D::Error> {
+        match DL.with(|x| x.get()) {
+            0 => similar::algorithms::diff(alg, d, old, or, new, nr),
+            v => {
+                similar::verif::clock::install(Some([0u64, 0, 1, 3][v as usize]));
+                let r = similar::algorithms::diff_deadline(alg, d, old, or, new, nr, Some(super::super::common::far_future()));
+                similar::verif::clock::install(None);
+                r
+            }
+        }
+    }
+    thread_local! {
+        pub static DL: std::cell::Cell<u8> = std::cell::Cell::new(0);
+    }
+}
+
 fn run_with<H: DiffHook<Error = usize>>(c: &SeqCase, stack: u8, hook: H, get: impl Fn(&H) -> (Vec<Ev>, usize)) -> Run {
     let alg = alg_of(c.alg);
+    algorithms::DL.with(|x| x.set(dl_of(c)));
     let (old, new) = (&c.old[..], &c.new[..]);
     match stack % NSTACKS {
         0 => {
@@ -112,7 +137,13 @@ fn expand_replace(ev: &[Ev]) -> Vec<Ev> {
 fn check_case(c: &SeqCase, obs: &mut Obs) -> Verdict {
     let stack = c.mode % NSTACKS;
     let overrides = (c.mode / NSTACKS) % 2 == 0;
-    let name = format!("{} / {} / {}", alg_name(c.alg), STACKS[stack as usize], if overrides { "hook overrides replace" } else { "hook with default replace" });
+    let name = format!(
+        "{} / {} / {}{}",
+        alg_name(c.alg),
+        STACKS[stack as usize],
+        if overrides { "hook overrides replace" } else { "hook with default replace" },
+        ["", " / deadline expiring at probe 0", " / deadline expiring at probe 1", " / deadline expiring at probe 3"][dl_of(c) as usize]
+    );
     let ok = match run(c, stack, overrides, None) {
         Ok(r) => r,
         Err(p) => return Verdict::Fail(format!("{}: {}", name, p)),
@@ -222,14 +253,15 @@ fn check_case(c: &SeqCase, obs: &mut Obs) -> Verdict {
     obs.class(STACKS[stack as usize]);
     obs.class(alg_name(c.alg));
     obs.class_if(!overrides, "default replace");
+    obs.class_if(dl_of(c) > 0, "deadline expiring at probe 0/1/3 (fallback paths)");
     obs.class_if(log.iter().any(|e| matches!(e, Ev::Replace(..))), "replace call seen");
     Verdict::Pass
 }
 
 fn strat(tier: Tier) -> BoxedStrategy<SeqCase> {
     prop_oneof![
-        8 => seq_case(tier.pick(14, 24), true, 2 * NSTACKS),
-        1 => seq_case(tier.pick(40, 80), true, 2 * NSTACKS),
+        8 => seq_case(tier.pick(14, 24), true, 8 * NSTACKS),
+        1 => seq_case(tier.pick(40, 80), true, 8 * NSTACKS),
     ]
     .boxed()
 }
@@ -239,7 +271,7 @@ fn enum_small(tier: Tier, f: &mut dyn FnMut(SeqCase) -> bool) {
     for a in &seqs {
         for b in &seqs {
             for alg in 0..3u8 {
-                for mode in 0..2 * NSTACKS {
+                for mode in 0..8 * NSTACKS {
                     let mut c = SeqCase::full(alg, a.clone(), b.clone());
                     c.mode = mode;
                     if !f(c) {
@@ -282,7 +314,7 @@ impl Prop for C08 {
     const ID: &'static str = "C08";
     const LEVEL: &'static str = "fault_enumeration";
     fn rule() -> String {
-        "cases = (algorithm, old, new, ranges, adapter stack in {bare, Replace, Compact, Compact<Replace>, NoFinishHook, &mut, Replace<NoFinishHook>, Replace<&mut>}, hook flavour in {overrides replace, default replace}); for each case the success log is recorded and then EVERY call index k of that log is made to fail in a separate execution (fault enumeration; 'executions' counts them). Oracle: finish exactly once and last (never through NoFinishHook, which otherwise forwards the bare run unchanged); failing call k => diff returns exactly Err(k), the hook saw exactly k+1 calls and they are the first k+1 calls of the success log; default-replace log == overriding log with replace expanded to delete+insert. Non-trivial = success log has >= 3 calls incl. a change; distinct = distinct serialized case.".into()
+        "cases = (algorithm, old, new, ranges, adapter stack in {bare, Replace, Compact, Compact<Replace>, NoFinishHook, &mut, Replace<NoFinishHook>, Replace<&mut>}, hook flavour in {overrides replace, default replace}, deadline in {none, virtual clock expiring at probe 0, 1, 3}); for each case the success log is recorded and then EVERY call index k of that log is made to fail in a separate execution (fault enumeration; 'executions' counts them). Oracle: finish exactly once and last (never through NoFinishHook, which otherwise forwards the bare run unchanged); failing call k => diff returns exactly Err(k), the hook saw exactly k+1 calls and they are the first k+1 calls of the success log; default-replace log == overriding log with replace expanded to delete+insert. Non-trivial = success log has >= 3 calls incl. a change; distinct = distinct serialized case.".into()
     }
     fn assumptions() -> Vec<String> {
         vec!["the failing hook returns its call index as the error value, so 'precisely that error' is checked by value".into()]
@@ -292,7 +324,7 @@ impl Prop for C08 {
             Stage {
                 name: "enum-small",
                 kind: StageKind::Enumerate {
-                    scope: format!("all (old,new) over {{0,1}} with lengths <= {} x 3 algorithms x 8 stacks x 2 hook flavours x every failing call index", tier.pick(4, 5)),
+                    scope: format!("all (old,new) over {{0,1}} with lengths <= {} x 3 algorithms x 8 stacks x 2 hook flavours x 4 deadline variants x every failing call index", tier.pick(4, 5)),
                     exhaustive: true,
                     gen: enum_small,
                 },
